@@ -108,6 +108,41 @@ def run(ctx):
                     spacing = (spacing, spacing * 1.25)     # anisotropic pixels
                 d0 = rng.uniform(0.5, 20) * LAM
                 base = mkimg(arr, spacing)
+                base0 = base
+                if regime == "band" and rng.random() < 0.6:
+                    # a cut-out keeps the parent frame's coordinates: the picture does not start at (0, 0).  (Band-limited
+                    # sampling only: with evanescent components the result reacts to the last bit of the pixel pitch, 1e-6
+                    # for 1e-15, and adding an origin changes that bit.)
+                    base = base.assign_coords(x=base.x.values + 37.5 * LAM, y=base.y.values - 12.25 * LAM)
+                    ctx.case((shape, dtype, regime, "origin_independence"), nontrivial=True)
+                    try:
+                        dorg = max(dist(one(propagate(base, kk * d0)), one(propagate(base0, kk * d0)), scale) for kk in (1, -2))
+                        if dorg > TOL or not meta_ok(base, propagate(base, d0)):
+                            ctx.violation("propagate/origin_dependence", {"shape": shape, "dtype": dtype, "regime": regime, "defect": dorg})
+                        else:
+                            ctx.trace_ok()
+                    except Exception as ex:
+                        ctx.violation("propagate/exception", {"shape": shape, "exc": repr(ex), "what": "shifted origin"})
+                # the optics given with the call, on a picture that carries none or others: they go with the result,
+                # and the next step relies on them
+                ctx.case((shape, dtype, regime, "optics_from_keywords"), nontrivial=True)
+                try:
+                    bare = data_grid(arr, spacing=spacing, name="holo")
+                    other = data_grid(arr, spacing=spacing, medium_index=1.0, illum_wavelen=WL * 1.3, name="holo")
+                    want2 = one(propagate(base0, 3 * d0))
+                    dk = 0.0
+                    for src_ in (bare, other):
+                        step1 = propagate(src_, d0, medium_index=NMED, illum_wavelen=WL)
+                        if step1.medium_index != NMED or step1.illum_wavelen != WL:
+                            dk = float("inf")
+                            break
+                        dk = max(dk, dist(one(propagate(step1, 2 * d0)), want2, scale))
+                    if not dk <= TOL:
+                        ctx.violation("propagate/optics_from_keywords", {"shape": shape, "dtype": dtype, "regime": regime, "defect": dk})
+                    else:
+                        ctx.trace_ok()
+                except Exception as ex:
+                    ctx.violation("propagate/exception", {"shape": shape, "exc": repr(ex)[:200], "what": "optics from keywords"})
                 cache = {}
 
                 def canonical(net, masked):
@@ -133,7 +168,7 @@ def run(ctx):
                 # linearity, energy, gradient filter on the first step
                 try:
                     a, b = 0.7, -1.3
-                    p1, p2 = one(propagate(base, d0)), one(propagate(mkimg(arr2, spacing), d0))
+                    p1, p2 = one(propagate(base0, d0)), one(propagate(mkimg(arr2, spacing), d0))
                     comb = one(propagate(mkimg(a * arr + b * arr2, spacing), d0))
                     dl = dist(comb, a * p1 + b * p2, scale)
                     # homogeneity over many decades: a field of amplitude 1e-9 (or 1e6) is the same field
@@ -142,8 +177,8 @@ def run(ctx):
                         dl = max(dl, dist(pc / c_, p1, scale))
                     dg = 0.0
                     for gf in (0.37 * LAM, -0.29 * LAM):          # the filter offset may have either sign
-                        dg = max(dg, dist(one(propagate(base, d0, gradient_filter=gf)),
-                                          p1 - one(propagate(base, d0 + gf)), scale))
+                        dg = max(dg, dist(one(propagate(base0, d0, gradient_filter=gf)),
+                                          p1 - one(propagate(base0, d0 + gf)), scale))
                     # the same image in metres (all lengths x 1e-6): the same picture; and a propagation by a few
                     # nanometres (a tenth of a radian of phase) is a propagation, as a scalar and inside a list
                     u = 1e-6
